@@ -144,3 +144,49 @@ def block_boundary_sizes(overheads, limit, quick=True):
                     if 0 <= n <= limit:
                         out.add(n)
     return sorted(out)
+
+
+def harvested_constants(prefix="spacepackets"):
+    """Octet strings found at run time in the module globals and class attributes of the tree under test (markers, magic
+    numbers, tables): bytes / bytearray values of 2..16 octets, integers >= 256 in their 2-, 4- and 8-octet big-endian forms,
+    short str values encoded as UTF-8.  Decoders are fed inputs that start with / contain them - a value the code itself compares
+    against is where a special case hides (the dictionary idea of fuzzers, taken from the live objects instead of the source)."""
+    import sys
+    out = set()
+
+    def add(v):
+        if isinstance(v, (bytes, bytearray)) and 2 <= len(v) <= 16:
+            out.add(bytes(v))
+        elif isinstance(v, bool):
+            return
+        elif isinstance(v, int) and 256 <= v < 1 << 64:
+            for w in (2, 4, 8):
+                if v < 1 << 8 * w:
+                    out.add(v.to_bytes(w, "big"))
+                    break
+        elif isinstance(v, str) and 2 <= len(v) <= 8 and v.isascii():
+            out.add(v.encode())
+        elif isinstance(v, (tuple, list, frozenset, set)) and len(v) <= 64:
+            for x in v:
+                if not isinstance(x, (tuple, list, set, frozenset, dict)):
+                    add(x)
+        elif isinstance(v, dict) and len(v) <= 64:
+            for k, x in v.items():
+                add(k)
+                if not isinstance(x, (tuple, list, set, frozenset, dict)):
+                    add(x)
+
+    for name, mod in list(sys.modules.items()):
+        if not name.startswith(prefix) or mod is None:
+            continue
+        for k, v in list(vars(mod).items()):
+            if k.startswith("__"):
+                continue
+            add(v)
+            if isinstance(v, type) and getattr(v, "__module__", "") == name:
+                for kk, vv in list(vars(v).items()):
+                    if not kk.startswith("__"):
+                        add(vv)
+    # link-layer markers every CCSDS implementer knows (attached sync markers of 131.0-B), kept as a fixed supplement
+    out.update({bytes.fromhex("1acffc1d"), bytes.fromhex("352ef853"), bytes.fromhex("eb90"), bytes.fromhex("034776c7272895b0"), b"cfdp"})
+    return sorted(out)
